@@ -145,6 +145,25 @@ PROPS["C04"] = dict(
     expect_entries=HS_ENTRIES + HS_LEN_ENTRIES,
     thorough_mult=20,
 )
+EXT_SINGLE = ["parse_tls_extension", "parse_tls_client_hello_extension", "parse_tls_server_hello_extension"]
+EXT_LISTS = ["parse_tls_extensions", "parse_tls_client_hello_extensions", "parse_tls_server_hello_extensions"]
+EXT_TAGGED = ["parse_tls_extension_" + n for n in ["sni", "max_fragment_length", "status_request", "elliptic_curves", "ec_point_formats",
+              "signature_algorithms", "heartbeat", "encrypt_then_mac", "extended_master_secret", "session_ticket", "key_share",
+              "pre_shared_key", "early_data", "supported_versions", "cookie", "psk_key_exchange_modes"]]
+EXT_CONTENT = ["parse_tls_extension_unknown", "parse_tls_extension_sni_hostname", "parse_tls_extension_sni_content",
+               "parse_tls_extension_max_fragment_length_content", "parse_tls_extension_elliptic_curves_content",
+               "parse_tls_extension_ec_point_formats_content", "parse_tls_extension_signature_algorithms_content",
+               "parse_tls_extension_heartbeat_content", "parse_tls_extension_alpn_content",
+               "parse_tls_extension_signed_certificate_timestamp_content", "parse_tls_extension_psk_key_exchange_modes_content",
+               "parse_tls_extension_renegotiation_info_content", "parse_tls_extension_encrypted_server_name", "parse_named_groups"]
+PROPS["C05"] = dict(
+    families=[("ext", 700), ("extwrong", 200), ("extlist", 200)],
+    corpus_entries=EXT_SINGLE + EXT_LISTS + EXT_TAGGED + EXT_CONTENT,
+    mutate_entries=EXT_SINGLE + EXT_LISTS + EXT_TAGGED, mutate_budget=40, mutate_sources=500,
+    small_scope=[(e, [], 1, 3) for e in EXT_SINGLE + EXT_LISTS + EXT_TAGGED + EXT_CONTENT],
+    expect_entries=EXT_SINGLE + EXT_LISTS + EXT_TAGGED,
+    thorough_mult=15,
+)
 PROPS["C16"] = dict(
     families=[("multi", 500)],
     corpus_entries=["tls_parser_many", "tls_parser", "parse_tls_plaintext", "parse_dtls_plaintext_records"],
@@ -454,7 +473,28 @@ def _kx_sweeps(tier, rng):
         out.append(Case("ECParametersContent::parse %d 0017" % t, "(err Switch @0+2)", "sweep"))
     return out
 
+def _ext_type_sweep(tier, rng):
+    """all 65536 extension types x {empty, one byte, two bytes} x three dispatchers (complete over the type dimension)
+    with the spec's expectation for types that are neither assigned nor GREASE"""
+    from vlib import Case
+    known = {0, 1, 5, 10, 11, 13, 15, 16, 18, 21, 22, 23, 28, 35, 40, 41, 42, 43, 44, 45, 48, 49, 51, 13172, 65281, 65486}
+    grease = {0x0a0a + 0x1010 * k for k in range(16)}
+    out = []
+    step = 1 if tier == "thorough" else 1
+    for t in range(0, 65536, step):
+        datas = [b"", b"\x01", b"\x00\x00"] if (tier == "thorough" or t in known or t % 7 == 0 or (t & 0x0f0f) == 0x0a0a) else [rng.choice([b"", b"\x01", b"\x02\x03"])]
+        for d in datas:
+            enc = bytes([t >> 8, t & 255, 0, len(d)]) + d
+            exp = ""
+            sl = "#_:" if not d else "#4:" + d.hex()
+            if t in grease: exp = "(ok @_+0 (Grease %d %s))" % (t, sl)
+            elif t not in known: exp = "(ok @_+0 (Unknown %d %s))" % (t, sl)
+            for e in EXT_SINGLE:
+                out.append(Case("%s %s" % (e, enc.hex()), exp, "typesweep"))
+    return out
+
 def extra_cases(pid, tier, seed, rng):
+    if pid == "C05": return _ext_type_sweep(tier, rng)
     if pid == "C13": return _kx_sweeps(tier, rng)
     if pid == "C07": return _defrag_histories(tier, seed, rng)
     if pid == "C02": return _length_sweep(tier, rng)
